@@ -311,9 +311,14 @@ def suite_geos(ctx):
              ("south_east", kc.mk_area(geos, 30, 35, (2.0e6, -4.5e6, 5.0e6, -1.0e6))),
              ("south_west", kc.mk_area(geos, 35, 35, (-5.0e6, -4.0e6, -1.5e6, -0.5e6))),
              ("south_east_rows_flipped", kc.mk_area(geos, 30, 35, (2.0e6, -1.0e6, 5.0e6, -4.5e6))),
-             ("north_west_rows_flipped", kc.mk_area(geos, 30, 30, (-4.0e6, 4.0e6, -1.0e6, 1.0e6)))]
+             ("north_west_rows_flipped", kc.mk_area(geos, 30, 30, (-4.0e6, 4.0e6, -1.0e6, 1.0e6))),
+             ("sector_nw_limb", kc.mk_area(geos, 30, 30, (-4.8e6, 0.8e6, -0.3e6, 5.2e6))),
+             ("sector_nw_limb_rows_flipped", kc.mk_area(geos, 30, 30, (-4.8e6, 5.2e6, -0.3e6, 0.8e6))),
+             ("sector_nw_limb_cols_flipped", kc.mk_area(geos, 30, 30, (-0.3e6, 0.8e6, -4.8e6, 5.2e6))),
+             ("wide_strip", kc.mk_area(geos, 60, 8, (-5.4e6, 1.0e6, 5.4e6, 2.0e6))),
+             ("tall_strip", kc.mk_area(geos, 8, 60, (1.0e6, -5.4e6, 2.0e6, 5.4e6)))]
     for nm, a in areas:
-        for k in (None, 10, 21, 50):
+        for k in (None, 4, 10, 21, 50):
             inp = {"geometry": "geos_" + nm, "vertices_per_side": k}
             try:
                 with warnings.catch_warnings():
@@ -324,7 +329,8 @@ def suite_geos(ctx):
                     area_impl = float(b.contour_poly.area())
                     px, py = a.get_edge_bbox_in_projection_coordinates(vertices_per_side=k) if False else (None, None)
             except Exception as e:  # noqa
-                ctx.fail("AreaDefinition._get_geostationary_boundary_sides", f"raised {type(e).__name__}: {str(e)[:120]}", inp, tags={"geos": nm}, size=5)
+                ctx.fail("AreaDefinition._get_geostationary_boundary_sides", f"raised {type(e).__name__}: {str(e)[:120]}", inp,
+                         tags={"geos": nm, "case": f"{nm}|{k}|raises"}, size=5)
                 continue
             probs = []
             for i in range(4):
@@ -345,7 +351,9 @@ def suite_geos(ctx):
             if not (np.all(x >= ex0 - tol) and np.all(x <= ex1 + tol) and np.all(y >= ey0 - tol) and np.all(y <= ey1 + tol)):
                 probs.append("a boundary vertex lies outside the area's extent")
             if probs:
-                ctx.fail("AreaDefinition._get_geostationary_boundary_sides", "; ".join(probs), inp, {"area": area_impl, "n": len(clon)}, tags={"geos": nm}, size=5)
+                symptom = "orientation" if any(p_.startswith("ring not clockwise") for p_ in probs) and len(probs) == 1 else "other"
+                ctx.fail("AreaDefinition._get_geostationary_boundary_sides", "; ".join(probs), inp, {"area": area_impl, "n": len(clon)},
+                         tags={"geos": nm, "case": f"{nm}|{k}|{symptom}"}, size=5)
             ctx.case("geos", (nm, k), nontrivial=nm != "full_disk", sample={"input": inp, "n_vertices": len(clon), "area_sr": area_impl})
 
 
